@@ -167,7 +167,7 @@ Section Proofs.
   Variable bio : C -> IO.
   Variable fio : C -> FIO.
   Variable body : nat -> mid -> list (view IO FIO) -> C -> C.
-  Variable addc : C -> C.
+  Variable addc : nat -> C -> C.
   Variable caches : list nat.
   Variables bf mk : nat.
 
@@ -628,7 +628,7 @@ Section Proofs.
     (forall m, m < length (s_design st) -> kids (s_design (fst (step st o))) m = kids (s_design st) m) /\
     length (s_design st) <= length (s_design (fst (step st o))).
   Proof.
-    intros I NE. destruct o as [tops|tops|tops|ks|m]; cbn [C07PassMgr.step] in *.
+    intros I NE. destruct o as [tops|tops|tops|ks|m a]; cbn [C07PassMgr.step] in *.
     1-3: destruct (all_below (length (s_design st)) tops) eqn:A; cbn [fst snd]; [|splits; auto];
          destruct (elab_call_ok tops st I (all_below_spec _ _ A)) as (I1 & D1 & _ & M1);
          splits; auto; rewrite D1; auto.
